@@ -55,12 +55,20 @@ impl NameMap {
     ) -> NameMap {
         // Names of parameter globals that another global also uses
         // Inside a function the parameter would hide a constant of that name from any namespace
+        // Inside a method the parameter would also hide a member of that name
         let mut parameter_global_names: HashMap<&str, usize> = HashMap::new();
         if !parameter_globals.is_empty() {
             for def in &module.global_registry {
                 if !def.is_intrinsic {
                     *parameter_global_names
                         .entry(def.name.node.as_str())
+                        .or_default() += 1;
+                }
+            }
+            for def in &module.struct_registry {
+                for member in &def.members {
+                    *parameter_global_names
+                        .entry(member.name.as_str())
                         .or_default() += 1;
                 }
             }
